@@ -5,6 +5,7 @@ import (
 	"fmt"
 	"os"
 	"testing"
+	. "verifharness/hist"
 
 	"github.com/google/reftable"
 	"pgregory.net/rapid"
